@@ -379,6 +379,9 @@ func (r *resourceManager) OpenConnection(dir network.Direction, usefd bool, endp
 	if !ok {
 		return nil, fmt.Errorf("failed to convert ip to netip.Addr")
 	}
+	// An IPv4 address spelled as an IPv4-mapped IPv6 address (/ip6/::ffff:a.b.c.d) is
+	// the same host: count it in the IPv4 subnets, not in an IPv6 one.
+	ipAddr = ipAddr.Unmap()
 	return r.openConnection(dir, usefd, endpoint, ipAddr)
 }
 
